@@ -42,6 +42,7 @@ func main() {
 		vlib.Group{Name: "inplace-to", Gen: genInPlace},
 		vlib.Group{Name: "history", Gen: genHistory},
 		vlib.Group{Name: "accessors", Gen: genAccessors},
+		vlib.Group{Name: "views", Gen: genViews},
 	)
 	vlib.Main("C04", groups...)
 }
